@@ -34,3 +34,32 @@ def engine_C17(tier, seed, ctx):
         "alloc_rule": "counting #[global_allocator] in the harness: (a) random histories on all four queue kinds x capacities 0..9, every handle dropped in a random order, live heap must return to the level before creation; (b) 4 kinds of handle/stream churn x handles operating every 1/4/16/64 cycles x with/without an early drop of a non-last handle: live bytes after warm-up vs after 10x more cycles must not differ by more than 16 KiB, and teardown returns everything",
     }
     return {"coverage": cov, "violations": viol, "known": []}
+
+
+def engine_C18(tier, seed, ctx):
+    """solo runs: at a random point every other thread is frozen and one thread runs its try_* call alone"""
+    count = 400 if tier == "quick" else 6000
+    tmp = os.path.join(ctx["BUILD"], "tmp", "C18")
+    os.makedirs(tmp, exist_ok=True)
+    js = os.path.join(tmp, "solo.json")
+    tr = os.path.join(tmp, "solo_traces.txt")
+    rdir = os.path.join(ctx["VERIF"], "replays")
+    rc, out = ctx["sh"](f"{ctx['HBIN']} explore --families ring,view,churn,scan,streams --count {count} --seed {seed} --solo 1 --traces {tr} --json {js} --replays {rdir} --tag C18solo", cwd=ctx["VERIF"], timeout=3000)
+    data = json.load(open(js)) if os.path.exists(js) else {"violations": [], "runs": 0}
+    viol = []
+    for v in data["violations"]:
+        if v["prop"] == "C18":
+            viol.append((v["replay"], "monitor C18: " + v["msg"], False))
+    solo_steps = []
+    begun = 0
+    if os.path.exists(tr):
+        for l in open(tr):
+            if l.startswith("info solo ends after"):
+                solo_steps.append(int(l.split()[4]))
+            elif l.startswith("info solo") and "begins" in l:
+                begun += 1
+        os.remove(tr)
+    cov = {"solo_runs": data.get("runs", 0), "solo_try_calls_run_alone": begun,
+           "solo_max_own_steps": max(solo_steps) if solo_steps else 0, "solo_step_bound": 150,
+           "solo_rule": "Busy/Yielding waits only; at a random global step all threads but one are frozen wherever they are (possibly mid-operation, holding a claim or a pin) and the chosen thread's current try_send/try_recv/try_recv_view must return within 150 of its own steps"}
+    return {"coverage": cov, "violations": viol[:3], "known": []}
